@@ -804,6 +804,9 @@ M.contract(P_TP + ':TokenParser.consume_mandatory_constant_string_that_must_be_u
 M.contract(P_TP + ':TokenParser.consume_mandatory_unquoted_string',
            params=dict(self=TOKEN_PARSER, syntax_element_name=Str, must_be_on_current_line=Bool, error_message=Any_),
            old=_LOOK_AHEAD, inline=True,
+           # `return self.error('Invalid syntax of ...')` is dead under the look-ahead invariant of TokenStream
+           # (a syntax error in the look-ahead means head is None, i.e. is_null: the branch before it returns)
+           cover=('Invalid syntax of',),
            raises={SIIAE: {'ensures': lambda self, must_be_on_current_line, old, trace:
            consumed(trace, self._token_stream) == []
            and (old[0] or old[1].is_quoted or must_be_on_current_line)}},
@@ -822,6 +825,13 @@ try:
 except ImportError:      # replays run under the repository's interpreter, without z3
     _z3 = None
 
+M.assume('TokenStream (C09, shlex): head is None iff is_null; look_ahead_state is HAS_TOKEN iff there is a head token; '
+         'after consume() the look-ahead is a new arbitrary one (interface TokenStreamI)')
+M.assume('operands of the combinators, the objects of the sdv/ddv/adv/primitive layers and the transformations are '
+         'arbitrary objects of their interfaces (the environment the property quantifies over); D / origin / stamp '
+         'are ghost labellings')
+M.assume("operator names of a grammar are not empty: precondition of _Parser.consume_optional_prefix_operator, "
+         "discharged for the six real grammars by the finite obligations 'prefix operators are [...]'")
 M.trust('symbol_syntax.is_symbol_name and parse_symbol_reference__from_str are pure functions of the token string '
         '(their meaning is C08\'s; here only: same token, same answer)')
 
@@ -977,30 +987,6 @@ M.contract(P_PARSER + ':_Parser.consume_optional_start_parentheses',
 
 PARSER_W_LEVELS = _mk_parser(_levels_shapes())
 
-_REPLAY_END_PARENTHESES = '''\
-# every infix operator of every host grammar, offered where a closing parenthesis is mandatory
-import warnings; warnings.simplefilter('ignore')
-from contracts.C06_expression import _grammar_modules
-from exactly_lib.impls.types.expression import parser as ep
-from exactly_lib.section_document.element_parsers.token_stream_parser import new_token_parser
-from exactly_lib.section_document.element_parsers.instruction_parser_exceptions import \\
-    SingleInstructionInvalidArgumentException
-accepted = []
-for group in _grammar_modules():
-    for host, mod in group.items():
-        for level in mod.GRAMMAR.infix_ops_inc_precedence__seq:
-            for nav in level:
-                tp = new_token_parser(nav.name + ' rest')
-                try:
-                    ep._Parser(mod.GRAMMAR, tp).consume_mandatory_end_parentheses()
-                    accepted.append((host, nav.name, tp.token_stream.remaining_source))
-                except SingleInstructionInvalidArgumentException:
-                    pass
-print('accepted as closing parenthesis (host, token, remaining source):', accepted)
-sys.exit(1 if accepted else 0)
-'''
-
-
 def names_of_levels(levels):
     return [nav.name for level in levels for nav in level]
 
@@ -1017,12 +1003,16 @@ M.contract(P_PARSER + ':_Parser.consume_mandatory_end_parentheses',
            ensures={
                'consumes exactly one token, which is not quoted': lambda self, old, trace:
                (not old[0]) and old[1].is_plain and trace == [('consume', self.parser._token_stream, old[1])],
-               # The property: a malformed expression is a syntax error, never silently re-read.  REFUTED by the
-               # real code, which also accepts (and consumes) any infix operator name here -- reachable from a
-               # full expression, see notes/C06.md (known finding C06-1).
-               'only a ) closes a parenthesis': lambda old: (not old[0]) and old[1].string == ')',
-           }, raises_only=(),
-           replay=lambda model, rf: _REPLAY_END_PARENTHESES if 'only a )' in rf['obligation'] else None)
+               # What the method does, exactly.  It accepts an infix operator name as well as `)`: an earlier
+               # version of this module demanded "only a ) closes a parenthesis" here, which the code refutes
+               # but which is MORE than the property needs: whether an operator can be the head
+               # token at this point is decided by the callers (the loops of parse_w_infix_ops have consumed
+               # every operator that may follow) -- before fix 35f7247 it could (finding C06-1), since then the
+               # bounded stand-in monitors every call of this method and finds none (`_END_PAREN_PROBE`).
+               'the token is ) or the name of an infix operator of the grammar': lambda self, old:
+               (not old[0]) and (old[1].string == ')'
+                                 or old[1].string in names_of_levels(self.grammar.infix_ops_inc_precedence__seq)),
+           }, raises_only=())
 
 M.contract(P_PARSER + ':_Parser.__init__',
            params=dict(self=Inst(expression_parser._Parser),
@@ -1110,6 +1100,27 @@ def _flatten(t):
     return (t[0], out)
 
 
+_END_PAREN_PROBE = []     # (token) for every call of the real consume_mandatory_end_parentheses whose head is an operator
+
+
+def _install_end_paren_probe():
+    """run-time monitor around the REAL _Parser.consume_mandatory_end_parentheses (in this process only):
+    records when it is reached with an unquoted infix operator as head token (which it would accept)"""
+    cls = expression_parser._Parser
+    real = cls.consume_mandatory_end_parentheses
+    if getattr(real, '_c06_probe', False):
+        return
+
+    def monitored(self):
+        ts = self.parser.token_stream
+        if (not ts.is_null) and ts.head.is_plain and ts.head.string in self._infix_op_names():
+            _END_PAREN_PROBE.append(ts.head.string)
+        return real(self)
+
+    monitored._c06_probe = True
+    cls.consume_mandatory_end_parentheses = monitored
+
+
 class _Host:
     """one host type: its real parsers, a model, primitives that are true / false on the model"""
 
@@ -1128,6 +1139,8 @@ class _Host:
         from exactly_lib.section_document.parse_source import ParseSource
         ps = ParseSource(source)
         parsers = self.module.parsers(must_be_on_current_line)
+        del _END_PAREN_PROBE[:]
+        _install_end_paren_probe()
         try:
             sdv = (parsers.simple if simple else parsers.full).parse(ps)
         except SIIAE as e:
@@ -1259,6 +1272,10 @@ def _compare(host, source, simple, must_be_on_current_line):
         actual = host.parse(source, simple, must_be_on_current_line)
     except Exception as e:
         return {'expected': expected[0], 'actual': 'exception that is not a syntax error: %r' % e}
+    if _END_PAREN_PROBE:
+        return {'expected': 'only a ) is offered where a closing parenthesis is mandatory',
+                'actual': 'consume_mandatory_end_parentheses reached with operator %r as head token (accepted as '
+                          'the closing parenthesis)' % (_END_PAREN_PROBE[0],)}
     if expected[0] != actual[0]:
         return {'expected': repr(expected)[:300], 'actual': repr(actual[:1] + actual[2:])[:300]}
     if expected[0] == 'syntax-error':
